@@ -613,7 +613,7 @@ def cases(rng, tier, shard, nshards):
         n = {"quick": 330, "thorough": 11000}[tier]
         for j, kind in enumerate(HISTORY_KINDS):
             if j % nshards == shard or tier == "thorough":
-                yield HISTORY, {"seed": rng.randrange(10 ** 6), "kind": kind, "n": 180 if tier == "quick" else 400, "per": 40}   # quick: 7 200 values per history, so ONE process sees well over 4 096 distinct texts plus their repeats (C19-r3m2)
+                yield HISTORY, {"seed": rng.randrange(10 ** 6), "kind": kind, "n": 180 if tier == "quick" else 700, "per": 40}   # quick: 7 200 values per history, so ONE process sees well over 4 096 distinct texts plus their repeats (C19-r3m2)
         for k in range(n):
             v = any_value(rng)
             for s in direct:
